@@ -25,6 +25,30 @@ def build(chk):
             runner.apply(('send', 'A', ('lit', data)))
         TC.drain(runner, accept=chk.rng.choice([1, 5, 1 << 30]), nread=chk.rng.choice([1, 4, 1 << 30]))
         recs.append(TS.finish(runner, 'boundary', dict(drained=True)))
+    # messages longer than one stream chunk (10240 octets) under back-pressure: short writes then full writes
+    for idx in range(3 if chk.quick() else 40):
+        rng = chk.rng
+        runner = TC.Runner(cfg_a=dict(segment_size_tx_initial=102400), cfg_b=dict(segment_size_tx_initial=102400))
+        runner.apply(('start', 'A'))
+        runner.apply(('start', 'B'))
+        TC.drain(runner)
+        for _ in range(rng.randrange(1, 3)):
+            runner.apply(('send', 'A', ('gen', rng.randrange(1 << 30), rng.choice([10241, 13000, 25000, 30719]))))
+        if rng.random() < 0.5:
+            runner.apply(('send', 'B', ('gen', rng.randrange(1 << 30), rng.choice([10240, 20481]))))
+        for _ in range(400):
+            ena = TC.enabled_ops(runner, rng)
+            if not ena:
+                break
+            pick = rng.choice(ena)
+            if pick[0] == 'txpump':
+                runner.apply(('txpump', pick[1], pick[2], rng.choice([1000, 3000, 7000, 10239, 10240, 1 << 30])))
+            elif pick[0] == 'rxpump':
+                runner.apply(('rxpump', pick[1], rng.choice([4000, 10240, 1 << 30])))
+            else:
+                runner.apply(('pq', pick[1]))
+        stuck = not TC.enabled_ops(runner, None)
+        recs.append(TS.finish(runner, 'large-backpressure', dict(drained=stuck)))
     return recs
 
 
